@@ -20,7 +20,7 @@ META = {
 RULE = ("case = document whose entry keys, string keys and field keys come from small pools; all assignments for <= n templated items "
         "(exhaustive) + random grammar derivations; non-trivial = at least one key collision of either kind; distinct = distinct text")
 ASSUMPTIONS = ["entries and strings have separate key spaces", "an entry with repeated field keys does not register its key (statement)"]
-MIN = {"structure_split": (10000, 200000), "structure_parse_string": (10000, 200000), "dupkey_wrapper": (5000, 100000), "dupfield_wrapper": (3000, 50000)}
+MIN = {"structure_split": (10000, 200000), "structure_parse_string": (10000, 200000), "dupkey_wrapper": (5000, 100000), "dupfield_wrapper": (3000, 50000), "structure_parse_string_copy_stack": (3000, 60000)}
 
 FIELDSETS = [[], ["t"], ["t", "u"], ["t", "t"], ["t", "u", "t"], ["t", "T"], ["u", "u", "u"]]
 KEYS = ["a", "b"]
@@ -119,7 +119,7 @@ def inner_matches(block, it, values):
     return (not values) or block.raw == it["raw"]
 
 
-def compare(lib, items, ctx, api, values):
+def compare(lib, items, ctx, api, values, copied=False):
     exp, live_e, live_s = expect(items)
     blocks = lib.blocks
     if len(blocks) != len(exp):
@@ -132,7 +132,15 @@ def compare(lib, items, ctx, api, values):
             ctx.mon("dupkey_wrapper")
             if b.key != e["key"]:
                 return Violation("dupkey-key", "C09:dupkey-key", dict(index=i, got=b.key, want=e["key"]))
-            if b.previous_block is not blocks[e["prev"]]:
+            first = blocks[e["prev"]]
+            if copied:
+                pb = b.previous_block
+                same = pb is not None and sp.block_kind(pb) == sp.block_kind(first) and pb.key == first.key and \
+                    (sp.block_kind(pb) != "entry" or (pb.entry_type == first.entry_type and [f.key for f in pb.fields] == [f.key for f in first.fields]))
+                if not same:
+                    return Violation("dupkey-previous", "C09:dupkey-previous-not-first:copying-stack",
+                                     dict(index=i, want=sp.project(first), got=sp.project(pb) if pb is not None else None))
+            elif b.previous_block is not first:
                 return Violation("dupkey-previous", "C09:dupkey-previous-not-first",
                                  dict(index=i, want_index=e["prev"], got=sp.project(b.previous_block) if b.previous_block is not None else None))
             if b.ignore_error_block is None or not inner_matches(b.ignore_error_block, e["item"], values):
@@ -160,6 +168,14 @@ def compare(lib, items, ctx, api, values):
     return None
 
 
+def parse_copy_stack(text):
+    """parse_string with the default stack built in copy mode (allow_inplace_modification=False)."""
+    import bibtexparser
+    from bibtexparser.middlewares import RemoveEnclosingMiddleware, ResolveStringReferencesMiddleware
+    return sp.escape(lambda: bibtexparser.parse_string(text, parse_stack=[ResolveStringReferencesMiddleware(allow_inplace_modification=False),
+                                                                          RemoveEnclosingMiddleware(allow_inplace_modification=False)]))
+
+
 def check(case, ctx):
     text = case["text"]
     items = recogniser.recognise(text)
@@ -168,14 +184,17 @@ def check(case, ctx):
         ctx.sample({"not_in_dialect": text, "why": recogniser.why_not(text)})
         return []
     out = []
-    for api, fn, values in (("split", sp.split, True), ("parse_string", sp.parse_default, False)):
+    apis = [("split", sp.split, True), ("parse_string", sp.parse_default, False)]
+    if ctx.cases % 3 == 0:
+        apis.append(("parse_string_copy_stack", parse_copy_stack, False))
+    for api, fn, values in apis:
         st, lib = fn(text)
         ctx.ran()
         ctx.mon("structure_" + api)
         if st == "raise":
             out.append(Violation("raised", f"C09:raise:{lib.split(':')[0]}", dict(api=api, error=lib, text=text)))
             continue
-        v = compare(lib, items, ctx, api, values)
+        v = compare(lib, items, ctx, api, values, copied=api.endswith("copy_stack"))
         if v:
             v["detail"]["text"] = text
             v["detail"]["api"] = api
